@@ -35,7 +35,7 @@ ASSUMPTIONS = [
     "probe bodies are deterministic; one-shot iterators are never placed directly under a cache",
     "reference interpreter used as cross-check only (disagreements are counted, reported under C05)",
 ]
-FLOORS = {"hits_compared": (400, 8000), "steps": (1500, 30000), "histories_with_hit_and_change": (80, 1500), "hostile_steps": (1200, 24000), "scalar_under_preset_section_steps": (14, 14)}
+FLOORS = {"hits_compared": (400, 8000), "steps": (1500, 30000), "histories_with_hit_and_change": (80, 1500), "hostile_steps": (1200, 24000), "scalar_under_preset_section_steps": (14, 14), "templated_container_steps": (150, 150)}
 COVER = {"kinds_under_cache_with_hits": ["opt", "switch", "case", "coalesce", "bind", "map", "tmpl", "with", "apply", "list", "ds"]}
 SHARDS_QUICK = 4
 # domains only in the directed families: an out-of-domain value inside a bind/case dispatch of a skipped
@@ -224,11 +224,46 @@ def scalar_under_preset_section(ctx):
                 return
 
 
+def templated_containers(ctx):
+    """What a template (an explicit one, or an option's string default) substitutes may be a list or a section that
+    holds templated strings itself, at any depth: the options those inner strings refer to decide the text, so two
+    dictionaries that differ only there must not share a memoised value."""
+    K = lambda spec: {"k": "cached", "spec": spec}  # noqa: E731
+    T = lambda text: {"k": "tmpl", "text": text, "params": []}  # noqa: E731
+    roots = {
+        "whole": K(T("{B}")),
+        "mid": K(T("{S.Y}-{B}")),
+        "default": {"k": "ds", "id": "1"},
+        "option": K({"k": "opt", "key": "B"}),
+        "param": K({"k": "tmpl", "text": "{:p:}", "params": [["p", {"k": "opt", "key": "B"}]]}),
+        "two-level": K(T("{C}")),
+    }
+    datasets = {"1": {"args": [["a", {"k": "opt", "key": "C", "dk": "tmpl", "dv": "{B}"}], ["b", {"k": "opt", "key": "S.Y", "dk": "const", "dv": 0}]], "form": "decorator"}}
+    inners = [["{A}/a", "{A}/b"], [["{A}"], 1], [0, ["x", ["{A}{T.X}"]]], "{L.0}"]
+    sections = [{"u": "{A}:1"}, {"u": {"v": ["{A}"]}, "w": 2}]  # (whole-string references only: str(dict) has braces)
+    for name, root in roots.items():
+        program = {"datasets": copy.deepcopy(datasets) if name == "default" else {}, "root": root}
+        for inner in inners + (sections if name in ("whole", "default", "option", "two-level") else []):
+            base = {"B": inner, "S": {"Y": "s"}, "T": {"X": "t"}, "L": ["{A}", 1]}
+            if name == "two-level":
+                base = {**base, "C": "{B}"}
+            hist = []
+            for a in (1, 2, 1, "x", U.ABSENT, 2, True):
+                o = copy.deepcopy(base)
+                if a is not U.ABSENT:
+                    o["A"] = a
+                hist.append(o)
+            n0 = ctx.counters.get("steps", 0)
+            run_history(ctx, program, hist, tag=f"templated-container:{name}")
+            ctx.count("templated_container_steps", ctx.counters.get("steps", 0) - n0)
+
+
 def run(ctx):
     rng = ctx.rng
     if ctx.shard == 0:
         known_finding_reproducers(ctx)
         scalar_under_preset_section(ctx)
+        templated_containers(ctx)
     dicts = directed.dictionaries()
     for i, p in enumerate(directed.programs()):
         if i % ctx.shards != ctx.shard:
